@@ -183,10 +183,8 @@ func (dm *DMap) syncPutOnCluster(e *env, nt storage.Entry) error {
 		cmd := protocol.NewPutEntry(dm.name, e.key, encodedEntry).Command(dm.s.ctx)
 		err := rc.Process(dm.s.ctx, cmd)
 		if err != nil {
-			return protocol.ConvertError(err)
-		}
-		err = protocol.ConvertError(cmd.Err())
-		if err != nil {
+			// An unreachable replica owner must not fail the operation
+			// if the write quorum can still be satisfied.
 			if dm.s.log.V(3).Ok() {
 				dm.s.log.V(3).Printf("[ERROR] Failed to call put command on %s for DMap: %s: %v", owner, e.dmap, err)
 			}
